@@ -90,7 +90,13 @@ class HTMLTokenizer(object):
             c = self.stream.char()
 
         # Convert the set of characters consumed to an int.
-        charAsInt = int("".join(charStack), radix)
+        try:
+            charAsInt = int("".join(charStack), radix)
+        except ValueError:
+            # Python limits the length of decimal strings it converts (see
+            # sys.set_int_max_str_digits); a number that long is out of
+            # range anyway.
+            charAsInt = 0x110000
 
         # Certain characters get replaced with others
         if charAsInt in replacementCharacters:
